@@ -540,6 +540,10 @@ func (e *evalEnv) equal(a, b *Val) string {
 	if len(a.L) != len(b.L) {
 		e.fail("comparison of differently shaped values")
 	}
+	if a.T != nil && isIfaceT(a.T) && len(a.L) == 2 {
+		// two nil interfaces are equal whatever their (meaningless) payload
+		return and(eq(a.L[0], b.L[0]), or(eq(a.L[0], "0"), eq(a.L[1], b.L[1])))
+	}
 	var cs []string
 	for i := range a.L {
 		cs = append(cs, eq(a.L[i], b.L[i]))
@@ -841,6 +845,18 @@ func (e *evalEnv) call(n *Node) *Val {
 		x := e.eval(args[0])
 		k := e.intOf(e.eval(args[1]))
 		return &Val{T: types.Typ[types.Int], L: []string{fr.vc.sumWidth(name, e.st, x, k)}}
+	case "haskey":
+		// the literal map m has an entry for key k
+		m := e.eval(args[0])
+		k := e.eval(args[1])
+		if m.Map == nil || m.Map.opaque {
+			e.fail("haskey on a map that is not a literal")
+		}
+		var cs []string
+		for _, key := range m.Map.keys {
+			cs = append(cs, eq(k.L[0], key))
+		}
+		return bval(or(cs...))
 	case "werr":
 		// the error returned by the last Write of the caller's writer (ghost)
 		errT := types.Universe.Lookup("error").Type()
